@@ -63,6 +63,7 @@ struct Bin {
         std::string cause = "";
         if (op == 3 && abs(zb) > dmax(LD)) cause = "divisor-wider-than-result/";
         if (op == 4 && (abs(za) > dmax(LD < RD ? LD : RD) || abs(zb) > dmax(LD < RD ? LD : RD))) cause = "operand-wider-than-result/";
+        o.region = cause;
         bool good = true;
         bool ok = guard(o, [&] {
             mpz_class t;
@@ -149,6 +150,7 @@ struct Shift {
             mpz_fdiv_q_2exp(t.get_mpz_t(), za.get_mpz_t(), N);
             if (dir == 1 && za < 0 && t < -dmax(D - N)) cause = "floor-below-symmetric-lowest/";
         }
+        o.region = cause;
         bool ok = guard(o, [&] {
             if (dir == 0)
                 good = judge_result("shl-constant", a << cnl::constant<N>{}, za << N, o);
